@@ -3,6 +3,7 @@
 
   c19_exec.py tree    <spec.json> <out.ndjson>    every event sequence over an alphabet up to a depth, per configuration
   c19_exec.py scripts <scripts.json> <out.ndjson> given event scripts (linear histories), same output format
+  c19_exec.py trie    <scripts.json> <out.ndjson> given event scripts sharing prefixes, recorded as their prefix tree
   c19_exec.py filter  <cases.json> <out.ndjson>   TrafficFilter.is_allowed cases
   c19_exec.py probe                                 facts about the environment (python version, what gethostbyname raises)
 
@@ -271,6 +272,36 @@ def cmd_scripts(path, out_path):
     print(json.dumps({"nodes": len(out.nodes), "executions": execs}))
 
 
+def cmd_trie(path, out_path):
+    """scripts sharing prefixes (one history per edge of the model's state graph): every script is executed from a fresh
+    object, the recorded nodes form the prefix tree of the scripts."""
+    scripts = json.load(open(path))
+    out = Out(out_path)
+    roots, kids, factories = {}, {}, {}
+    execs = nondet = 0
+    for s in scripts:
+        ck = json.dumps(s["config"], sort_keys=True)
+        if ck not in roots:
+            factories[ck] = fail_safe_factory(s["config"])
+            roots[ck] = out.add(1, reset_rec(s["config"]))
+        fs = factories[ck]()
+        cur = roots[ck]
+        for e in s["events"]:
+            rec = step(fs, e)
+            execs += 1
+            k = (cur, e["ev"], e.get("d", 0), e.get("read", False), e.get("out", ""), e.get("kind", ""))
+            nid = kids.get(k)
+            if nid is None:
+                nid = kids[k] = out.add(cur, rec)
+            else:
+                old = out.nodes[nid - 1]
+                if old["ans"] != rec["ans"] or old["raised"] != rec["raised"]:
+                    nondet += 1
+            cur = nid
+    out.write()
+    print(json.dumps({"nodes": len(out.nodes), "executions": execs, "nondeterministic": nondet}))
+
+
 # ------------------------------------------------------------------ traffic filter
 class Resolver:
     """stands in for socket.gethostbyname: table host -> IPv4 string | "fail" (gaierror) | "unicode" (UnicodeError, what
@@ -347,6 +378,8 @@ if __name__ == "__main__":
         cmd_tree(a[1], a[2])
     elif a and a[0] == "scripts":
         cmd_scripts(a[1], a[2])
+    elif a and a[0] == "trie":
+        cmd_trie(a[1], a[2])
     elif a and a[0] == "filter":
         cmd_filter(a[1], a[2])
     elif a and a[0] == "probe":
